@@ -147,3 +147,38 @@ def h1(ctx: Ctx) -> None:
     from .c06 import r2 as step_rule
 
     step_rule(ctx)
+
+
+@rule("C17.R4", "the component list of an index market changes only when a component is added at set-up: nobody else edits it, neither through the field nor through the list that get_components() hands out", "T1 who-may-write + escape of the getter's result", floor=2)
+def r4(ctx: Ctx) -> None:
+    import ast as _ast
+
+    n = 0
+    for w in ctx.cg.writers_of("IndexMarket", "_components"):
+        n += 1
+        ok = w.func.qualname in ("IndexMarket.__init__", "IndexMarket._add_market", "IndexMarket._add_markets")
+        ctx.check(ok, w.func, w.node, "writer of IndexMarket._components", "IndexMarket.__init__ | IndexMarket._add_market", w.func.qualname)
+    mutators = ("remove", "append", "pop", "clear", "sort", "insert", "extend", "reverse", "__delitem__", "__setitem__")
+    for f in ctx.program.all_functions():
+        names = set()
+        for x in _ast.walk(f.node):
+            if isinstance(x, (_ast.Assign, _ast.AnnAssign)) and x.value is not None and isinstance(x.value, _ast.Call) and isinstance(x.value.func, _ast.Attribute) and x.value.func.attr == "get_components":
+                for t in (x.targets if isinstance(x, _ast.Assign) else [x.target]):
+                    if isinstance(t, _ast.Name):
+                        names.add(t.id)
+        if not names:
+            continue
+        n += 1
+        bad = []
+        for x in _ast.walk(f.node):
+            if isinstance(x, _ast.Call) and isinstance(x.func, _ast.Attribute) and x.func.attr in mutators and isinstance(x.func.value, _ast.Name) and x.func.value.id in names:
+                bad.append((x, f".{x.func.attr}()"))
+            if isinstance(x, (_ast.Assign, _ast.AugAssign, _ast.Delete)):
+                for t in (x.targets if isinstance(x, (_ast.Assign, _ast.Delete)) else [x.target]):
+                    if isinstance(t, _ast.Subscript) and isinstance(t.value, _ast.Name) and t.value.id in names:
+                        bad.append((x, "element store / delete"))
+        for x, what in bad:
+            ctx.violated(f, x, "the list handed out by get_components() is only read", "no change of the list (it is the index market's own component list)", f"{f.qualname}: {what} on the result of get_components(): the index is computed over the changed list from then on")
+        if not bad:
+            ctx.holds(f, f.node, f"{f.qualname} only reads the list handed out by get_components()", "no mutator call, no element store")
+    ctx.require(n >= 2, "IndexMarket._components: writers / readers not found")
